@@ -38,7 +38,9 @@ func materialise(root string, c impCase, variant int) (extraTasks []string) {
 		case "missing":
 			continue
 		case "bad":
-			_ = ioutil.WriteFile(p, []byte("tasks: [\n  : : {\n"), 0o644)
+			// not a configuration: a syntax error, or well-formed YAML that is not a mapping, or nothing at all
+			kinds := []string{"tasks: [\n  : : {\n", "- a\n- b\n", "just some text\n", "42\n", ""}
+			_ = ioutil.WriteFile(p, []byte(kinds[(variant+i+len(c.Imports[i-1]))%len(kinds)]), 0o644)
 			continue
 		}
 		var b strings.Builder
@@ -138,9 +140,13 @@ func CheckC17(env *core.Env, rep *core.Report) *core.Result {
 		root := env.Sub("imp")
 		variant := i % 3
 		extra := materialise(root, c, variant)
-		res := e.run(root, "", 10*time.Second, "-c", filepath.Join(root, filePath(1)), "list", "tasks")
+		rootArg := filepath.Join(root, filePath(1))
+		if i%2 == 1 {
+			rootArg = filePath(1) // the root given relative to the working directory
+		}
+		res := e.run(root, "", 10*time.Second, "-c", rootArg, "list", "tasks")
 		atomic.AddInt64(&n, 1)
-		detail := map[string]interface{}{"case": c, "variant": []string{"plain", "entry repeated", "directory import"}[variant], "stdout": res.Stdout, "stderr": tailS(res.Stderr, 500), "exit": res.Exit}
+		detail := map[string]interface{}{"case": c, "root_argument": rootArg, "variant": []string{"plain", "entry repeated", "directory import"}[variant], "stdout": res.Stdout, "stderr": tailS(res.Stderr, 500), "exit": res.Exit}
 		add := func(kind, what string) {
 			rep.Add(core.Finding{Prop: "C17", Key: "C17:imports:" + kind, What: what + fmt.Sprintf(" [imports %v, health %v]", c.Imports, c.Health), Detail: detail})
 		}
@@ -174,7 +180,7 @@ func CheckC17(env *core.Env, rep *core.Report) *core.Result {
 			add("result-is-not-the-closure", fmt.Sprintf("loaded tasks %v, the import closure defines %v", got, want))
 		}
 		// each file taken once: the shared pipeline has one stage per file of the closure
-		g := e.run(root, "", 10*time.Second, "-c", filepath.Join(root, filePath(1)), "graph", "p")
+		g := e.run(root, "", 10*time.Second, "-c", rootArg, "graph", "p")
 		if g.Exit != 0 || g.TimedOut {
 			add("pipeline-broken-by-import", "graph p failed: "+lastLine(g.Stderr))
 		}
